@@ -829,21 +829,29 @@ where
         len: cfg.len,
     };
     sim::begin_run(cfg.sim.clone());
-    // sequential prefix on the main thread
-    let pre_ok = catch_unwind(AssertUnwindSafe(|| run_ops(&it, 90, &cfg.pre, &ctx)));
-    let _ = pre_ok;
+    let n = cfg.threads.len();
+    let pre_t = sim::pre_tid(n);
+    let term_t = sim::term_tid(n);
+    // phase 1: sequential prefix (one virtual thread)
+    if !cfg.pre.is_empty() {
+        let itr = &it;
+        let ctxr = &ctx;
+        sim::run_phase(&[pre_t], |t| run_ops(itr, t, &cfg.pre, ctxr));
+    }
+    // phase 2: the concurrent part
     {
         let itr = &it;
         let ctxr = &ctx;
-        sim::run_threads(cfg.threads.len(), |t| {
+        let tids: Vec<usize> = (0..n).collect();
+        sim::run_phase(&tids, |t| {
             run_ops(itr, t, &cfg.threads[t], ctxr);
         });
     }
-    // terminal action on the main thread (all virtual threads joined)
+    // phase 3: terminal action (all other virtual threads joined), also a virtual thread so that
+    // a hang in it is a verdict and not a hung process
     let mut seq_items = None;
     let mut terminal_panic = None;
-    let aborted = sim::aborted();
-    if aborted {
+    if sim::aborted() {
         // torn-down run: no oracle is evaluated; dropping the iterator is still attempted
         let _t = alloc::track();
         let r = catch_unwind(AssertUnwindSafe(|| drop(it)));
@@ -851,63 +859,86 @@ where
             take_panics();
         }
     } else {
-        let invoke = sim::next_seq();
-        let r = {
-            let _t = alloc::track();
-            catch_unwind(AssertUnwindSafe(|| match cfg.terminal {
-                Terminal::Drop => {
-                    drop(it);
-                    None
-                }
-                Terminal::IntoSeq(m) => {
-                    let mut s = it.into_seq_iter();
-                    let mut out = Vec::new();
-                    let mut n = 0usize;
-                    while n < m {
-                        match s.next() {
-                            Some(x) => {
-                                let o = x.obs();
-                                let _p = alloc::pause();
-                                out.push(o);
-                            }
-                            None => break,
-                        }
-                        n += 1;
-                        if n > cfg.len + 64 {
-                            break;
-                        }
+        let slot = Mutex::new(Some(it));
+        let result: Mutex<Option<(u64, u64, std::thread::Result<Option<Vec<ItemObs>>>)>> =
+            Mutex::new(None);
+        sim::run_phase(&[term_t], |_| {
+            let it = slot
+                .lock()
+                .unwrap_or_else(|e| e.into_inner())
+                .take()
+                .expect("iterator present");
+            let invoke = sim::call_begin();
+            let r = {
+                let _t = alloc::track();
+                catch_unwind(AssertUnwindSafe(|| match cfg.terminal {
+                    Terminal::Drop => {
+                        drop(it);
+                        None
                     }
-                    drop(s);
-                    Some(out)
+                    Terminal::IntoSeq(m) => {
+                        let mut s = it.into_seq_iter();
+                        let mut out = Vec::new();
+                        let mut k = 0usize;
+                        while k < m {
+                            match s.next() {
+                                Some(x) => {
+                                    let o = x.obs();
+                                    let _p = alloc::pause();
+                                    out.push(o);
+                                }
+                                None => break,
+                            }
+                            k += 1;
+                            if k > cfg.len + 64 {
+                                break;
+                            }
+                        }
+                        drop(s);
+                        Some(out)
+                    }
+                }))
+            };
+            if let Err(p) = &r {
+                if p.is::<SimAbort>() {
+                    return;
                 }
-            }))
-        };
-        let ret = sim::next_seq();
-        let (kind, res) = match r {
-            Ok(items) => {
-                let k = if items.is_some() {
-                    CallKind::IntoSeq
-                } else {
-                    CallKind::DropIter
-                };
-                seq_items = items;
-                (k, Res::Unit)
             }
-            Err(p) => {
-                let injected = p.is::<elems::Injected>();
-                let msg = take_panics().last().cloned().unwrap_or_default();
-                terminal_panic = Some(msg.clone());
-                (CallKind::DropIter, Res::Panicked { injected, msg })
-            }
-        };
-        ctx.record(Call {
-            tid: 90,
-            kind,
-            arg: 0,
-            invoke,
-            ret,
-            res,
+            let ret = sim::call_end();
+            let _p = alloc::pause();
+            *result.lock().unwrap_or_else(|e| e.into_inner()) = Some((invoke, ret, r));
         });
+        // an iterator that was never taken (phase did not start) is dropped here
+        drop(slot);
+        if let Some((invoke, ret, r)) = result.into_inner().unwrap_or_else(|e| e.into_inner()) {
+            let (kind, res) = match r {
+                Ok(items) => {
+                    let k = if items.is_some() {
+                        CallKind::IntoSeq
+                    } else {
+                        CallKind::DropIter
+                    };
+                    seq_items = items;
+                    (k, Res::Unit)
+                }
+                Err(p) => {
+                    let injected = p.is::<elems::Injected>();
+                    let msg = take_panics().last().cloned().unwrap_or_default();
+                    if !injected {
+                        terminal_panic = Some(msg.clone());
+                    }
+                    (CallKind::DropIter, Res::Panicked { injected, msg })
+                }
+            };
+            ctx.record(Call {
+                tid: term_t,
+                kind,
+                arg: 0,
+                invoke,
+                ret,
+                res,
+            });
+        }
     }
     let simout = sim::end_run();
     DriveOut {
